@@ -142,3 +142,16 @@ Theorem C20_no_reachable_deadlock :
   (exists h st' o, cstep c st (LWorker h) = StepOk st' o).
 Proof. exact no_reachable_deadlock. Qed.
 Print Assumptions C20_no_reachable_deadlock.
+
+(* non-vacuity of the deadlock theorems: a concrete reachable state meets all their hypotheses with a
+   client blocked in wait() behind an insert the processor has not taken yet *)
+Example C20_no_reachable_deadlock_nonvacuous :
+  let c := {| c_ignore_internal := true; c_item_size := 56; c_buf_cap := 4; c_buffer_items := 0; c_metrics := true;
+              c_validator := fun _ _ => true; c_coster := fun _ => 0%Z; c_async := false |} in
+  exists t st,
+    tl_new 3 [1; 2; 3; 4] 29 7 = Some t /\ tl_wf t /\ 0 < c_buf_cap c /\
+    reach_u64 c (cinit c 100 t 1000) st /\
+    N.of_nat (length (s_start st)) <= Consts.NUM_TO_KEEP /\
+    client_of st 0 = KWaitBlock 0 /\ s_pc st = PIdle /\ length (s_buf st) = 2%nat /\
+    continue_client c st 0 = StepBlocked.
+Proof. exact no_reachable_deadlock_nonvacuous. Qed.
